@@ -90,6 +90,53 @@ theorem conservation (q : Fifo α) (ops : List (Op α)) (hq : q.closed = false) 
     | close => exact absurd hops (by simp [noCloseReset])
     | reset => exact absurd hops (by simp [noCloseReset])
 
+/-- **accounting** over arbitrary operation sequences (Close / Reset anywhere): every item that was
+held or accepted is — exactly once — either pulled, or discarded by a Close / Reset (the signalled
+loss), or still held. -/
+theorem accounting (q : Fifo α) (ops : List (Op α)) :
+    (q.items ++ accepted ops (run q ops).2).Perm
+      (pulled (run q ops).2 ++ (discarded q ops ++ (run q ops).1.items)) := by
+  induction ops generalizing q with
+  | nil => simp [accepted, pulled, discarded]
+  | cons op ops ih =>
+    rw [run_cons]
+    cases op with
+    | push x =>
+      by_cases h : q.items.length < q.cap
+      · have := ih { q with items := q.items ++ [x] }
+        simp only [step, push_ok h, accepted, pulled, discarded]
+        simpa using this
+      · have := ih q
+        simp only [step, push_no h, accepted, pulled, discarded]
+        exact this
+    | pull =>
+      by_cases hc : q.closed = true
+      · have e : pull q = (q, .closed) := by simp only [pull, hc, if_true]
+        simp only [step, e, accepted, pulled, discarded]; exact ih q
+      · cases hi : q.items with
+        | nil =>
+          have e : pull q = (q, .wait) := by simp only [pull, hc, hi]; rfl
+          simp only [step, e, accepted, pulled, discarded]
+          have := ih q; rw [hi] at this; exact this
+        | cons y ys =>
+          have e : pull q = ({ q with items := ys }, .item y) := by simp only [pull, hc, hi]; rfl
+          simp only [step, e, accepted, pulled, discarded, List.cons_append]
+          exact (ih { q with items := ys }).cons y
+    | close =>
+      have := ih (close q)
+      simp only [close, List.nil_append] at this
+      simp only [step, accepted, pulled, discarded]
+      refine (List.Perm.append_left q.items this).trans ?_
+      simp only [List.append_assoc]
+      exact List.perm_append_comm_assoc _ _ _
+    | reset =>
+      have := ih (reset q)
+      simp only [reset, List.nil_append] at this
+      simp only [step, accepted, pulled, discarded]
+      refine (List.Perm.append_left q.items this).trans ?_
+      simp only [List.append_assoc]
+      exact List.perm_append_comm_assoc _ _ _
+
 /-- pulled items are a subsequence of the accepted items (any operation sequence, any start) -/
 theorem pulled_sublist (q : Fifo α) (ops : List (Op α)) :
     (pulled (run q ops).2).Sublist (q.items ++ accepted ops (run q ops).2) := by
